@@ -2,13 +2,11 @@ SPECIFICATION Spec
 CONSTANTS
   Buckets = {"m", "d"}
   K = 3
-  MaxSteps = 7
+  MaxSteps = 8
   SeedOnOpen = TRUE
-  SeedFromBucketMark = TRUE
+  SeedFromBucketMark = FALSE
   MetaKeepsMark = TRUE
 VIEW View
 CHECK_DEADLOCK FALSE
 INVARIANTS
-  PersistedCoversIssued
-  StrictlyIncreasing
   AboveBeforeRestart
